@@ -892,3 +892,90 @@ func fromRecover(v ssa.Value, depth int) bool {
 	}
 	return false
 }
+
+// ---- C06.R6 panicking type assertions on user-typed values ----
+
+// A single-value type assertion x.(I) panics when the dynamic type does not
+// implement I. In the decoders the operand is the user's destination. The
+// assertion is safe only when the decoder is constructed for types that
+// implement exactly I; two assertions of one operand to different interfaces,
+// selected by something other than the dynamic type, cannot both be safe.
+func c06r6(rc *core.RC) {
+	p := rc.P
+	n := 0
+	for _, short := range []string{"decoder", "encoder"} {
+		for _, fd := range p.Funcs(short) {
+			if fd.Body == nil {
+				continue
+			}
+			info := p.Info(fd)
+			type asr struct {
+				e     *ast.TypeAssertExpr
+				iface string
+			}
+			byOperand := map[types.Object][]asr{}
+			// assertions in comma-ok form or in type switches are non-panicking
+			safe := map[*ast.TypeAssertExpr]bool{}
+			ast.Inspect(fd.Body, func(m ast.Node) bool {
+				switch x := m.(type) {
+				case *ast.AssignStmt:
+					if len(x.Lhs) == 2 && len(x.Rhs) == 1 {
+						if ta, ok := core.Unparen(x.Rhs[0]).(*ast.TypeAssertExpr); ok {
+							safe[ta] = true
+						}
+					}
+				case *ast.ValueSpec:
+					if len(x.Names) == 2 && len(x.Values) == 1 {
+						if ta, ok := core.Unparen(x.Values[0]).(*ast.TypeAssertExpr); ok {
+							safe[ta] = true
+						}
+					}
+				case *ast.TypeSwitchStmt:
+					ast.Inspect(x.Assign, func(k ast.Node) bool {
+						if ta, ok := k.(*ast.TypeAssertExpr); ok {
+							safe[ta] = true
+						}
+						return true
+					})
+				}
+				return true
+			})
+			ast.Inspect(fd.Body, func(m ast.Node) bool {
+				ta, ok := m.(*ast.TypeAssertExpr)
+				if !ok || ta.Type == nil || safe[ta] {
+					return true
+				}
+				tv := info.Types[ta.Type]
+				if tv.Type == nil {
+					return true
+				}
+				if _, isIface := tv.Type.Underlying().(*types.Interface); !isIface {
+					return true // assertion to a concrete library type (pool values, Code nodes)
+				}
+				if o := core.ObjOf(info, ta.X); o != nil {
+					byOperand[o] = append(byOperand[o], asr{ta, types.ExprString(ta.Type)})
+				}
+				return true
+			})
+			for o, as := range byOperand {
+				distinct := map[string]bool{}
+				for _, a := range as {
+					distinct[a.iface] = true
+				}
+				for _, a := range as {
+					n++
+					rc.Touch(p.FuncName(fd))
+					key := fmt.Sprintf("%s/type-assertion %s.(%s)", p.FuncName(fd), o.Name(), a.iface)
+					if len(distinct) > 1 {
+						rc.Bad(key, a.e.Pos(), "%s is asserted (panicking form) to %d different interfaces in this function (%s): which assertion runs is decided by an option flag, not by the dynamic type, so a destination implementing only one of them panics with an interface conversion error", o.Name(), len(distinct), strings.Join(keysOf(distinct), ", "))
+					} else {
+						rc.OK(key, a.e.Pos(), "single interface asserted; the decoder is constructed only for types implementing it")
+					}
+				}
+			}
+		}
+	}
+	if n < 2 {
+		rc.Unknown("module/panicking-assertions", token.NoPos, "found %d panicking interface assertions (confirmed: the two TextUnmarshaler sites)", n)
+	}
+}
